@@ -131,40 +131,85 @@ def readRows (ncol : Nat) : Nat → Stream → Option (List Line × Stream)
 
 def serDb (d : DbFile) : List Line := serDbWith (toString d.ncol) (toString d.nech) d
 
-/-- `Db::_deserialize` up to the decoding of locators: `none` = failure reported -/
+/-- `Db::_deserialize` (after the type tag) up to the decoding of locators: `none` = failure reported -/
+def deserDbBody (s0 : Stream) : Option DbFile :=
+  let (ncolT, s1) := readRec "0" s0
+  let (nechT, s2) := readRec "0" s1
+  match parseCInt? ncolT, parseCInt? nechT with
+  | some ncolI, some nechI =>
+    if ncolI < 0 ∨ nechI < 0 then none else
+    let ncol := ncolI.toNat
+    let nech := nechI.toNat
+    let hdr : Option (Line × Line × Stream) :=
+      if ncol > 0 then
+        (match readVec ncol s2 with
+         | none => none
+         | some (locs, s3) =>
+           match readVec ncol s3 with
+           | none => none
+           | some (names, s4) => some (locs, names, s4))
+      else some ([], [], s2)
+    match hdr with
+    | none => none
+    | some (locs, names, s4) =>
+      -- without columns there is no value to read, whatever the announced number of samples
+      if ncol = 0 then some { ncol := 0, nech := nech, locators := [], names := [], rows := [] } else
+      match readRows ncol nech s4 with
+      | none => none
+      | some (rows, _) => some { ncol := ncol, nech := nech, locators := locs, names := names, rows := rows }
+  | _, _ => none
+
+/-- a neutral file holding a Db: the type tag, then the body -/
 def deserDb (lines : List Line) : Option DbFile :=
   match lines with
   | [] => none
   | first :: rest =>
     match nextWord first rest with
     | none => none                                   -- empty file: the type tag is missing
+    | some (tag, s0) => if tag ≠ "Db" then none else deserDbBody s0
+
+/-! ### DbGrid: `DbGrid::_serialize` writes the space dimension, one line `NX X0 DX ANGLE` per
+dimension, then the Db part; `DbGrid::_deserialize` reads them back token by token -/
+
+structure GridFile where
+  dims : List (String × String × String × String)      -- (nx, x0, dx, angle) as written
+  db : DbFile
+deriving Repr, BEq, DecidableEq
+
+def dimLine (q : String × String × String × String) : Line := [q.1, q.2.1, q.2.2.1, q.2.2.2]
+
+def serGridWith (ndimT ncolT nechT : String) (g : GridFile) : List Line :=
+  [["DbGrid"], writeRec "Space Dimension" ndimT, writeComment "Grid characteristics (NX,X0,DX,ANGLE)"]
+  ++ g.dims.map dimLine ++ (serDbWith ncolT nechT g.db).tail
+
+/-- `ndim` times the four `_recordRead` of the loop -/
+def readDims : Nat → Stream → List (String × String × String × String) × Stream
+  | 0, s => ([], s)
+  | k+1, s =>
+    let (a, s1) := readRec "0" s
+    let (b, s2) := readRec "0" s1
+    let (c, s3) := readRec "0" s2
+    let (d, s4) := readRec "0" s3
+    let (rest, s5) := readDims k s4
+    ((a, b, c, d) :: rest, s5)
+
+def deserGrid (lines : List Line) : Option GridFile :=
+  match lines with
+  | [] => none
+  | first :: rest =>
+    match nextWord first rest with
+    | none => none
     | some (tag, s0) =>
-      if tag ≠ "Db" then none else
-      let (ncolT, s1) := readRec "0" s0
-      let (nechT, s2) := readRec "0" s1
-      match parseCInt? ncolT, parseCInt? nechT with
-      | some ncolI, some nechI =>
-        if ncolI < 0 ∨ nechI < 0 then none else
-        let ncol := ncolI.toNat
-        let nech := nechI.toNat
-        let hdr : Option (Line × Line × Stream) :=
-          if ncol > 0 then
-            (match readVec ncol s2 with
-             | none => none
-             | some (locs, s3) =>
-               match readVec ncol s3 with
-               | none => none
-               | some (names, s4) => some (locs, names, s4))
-          else some ([], [], s2)
-        match hdr with
-        | none => none
-        | some (locs, names, s4) =>
-          -- without columns there is no value to read, whatever the announced number of samples
-          if ncol = 0 then some { ncol := 0, nech := nech, locators := [], names := [], rows := [] } else
-          match readRows ncol nech s4 with
-          | none => none
-          | some (rows, _) => some { ncol := ncol, nech := nech, locators := locs, names := names, rows := rows }
-      | _, _ => none
+      if tag ≠ "DbGrid" then none else
+      let (ndimT, s1) := readRec "0" s0
+      match parseCInt? ndimT with
+      | some ndimI =>
+        if ndimI < 0 then none else
+        let (dims, s2) := readDims ndimI.toNat s1
+        -- every number of nodes must be a positive integer (`Invalid number of grid nodes`)
+        if dims.any (fun q => match parseCInt? q.1 with | some n => n ≤ 0 | none => true) then none else
+        (deserDbBody s2).map fun db => { dims := dims, db := db }
+      | none => none
 
 /-- size events of the reader: every buffer it allocates from header counts -/
 def allocations (d : DbFile) : List Nat := [d.ncol, d.ncol, d.nech * d.ncol]
